@@ -257,3 +257,39 @@ Section Loader.
     | S f => match step s (LThread k) with Some s' => drain f s' k | None => s end
     end.
 End Loader.
+
+(* ---- specification vocabulary ---- *)
+
+(* What a completed ReadAt must have returned (requests whose end would overflow uint64 are outside the model). *)
+Definition read_result_ok (blob : bytes) (e : request * result) : Prop :=
+  match e with
+  | (RqRead off len, ROk d eof) =>
+      off + Z.of_nat len < two64 ->
+      0 <= off /\ d = slice blob (Z.to_nat off) (List.length d) /\
+      List.length d = Nat.min len (List.length blob - Z.to_nat off) /\ eof = (List.length d <? len)%nat
+  | _ => True
+  end.
+
+(* range i of the cache file holds chunk i of the blob *)
+Definition range_good (idx : index) (blob f : bytes) (i : nat) : Prop :=
+  forall r, nth_error idx i = Some r ->
+    slice f (N.to_nat (r_start r)) (N.to_nat (r_size r)) = chunk_of blob r.
+
+(* What holds of the loader in every reachable state. *)
+Record loader_inv (idx : index) (nullid : id) (blob : bytes) (s : sstate) : Prop := {
+  li_len : List.length (s_file s) = List.length blob;
+  (* a set done bit (and every null chunk, which is never loaded) means the range is populated with the chunk *)
+  li_done : forall i r, nth_error idx i = Some r ->
+              nth i (s_done s) false = true \/ r_id r = nullid -> range_good idx blob (s_file s) i;
+  (* the state file never claims more than the cache file holds, as long as the two belong together *)
+  li_saved : s_stale s = false -> forall b, s_saved s = Some b ->
+              forall i, nth i b false = true -> range_good idx blob (s_file s) i;
+  (* every ReadAt that completed, in this or an earlier incarnation, returned the blob's bytes *)
+  li_log : Forall (read_result_ok blob) (s_log s);
+}.
+
+(* schedules in which every ReadAt has a non-empty buffer *)
+Definition label_nonzero (l : label) : bool :=
+  match l with LSubmit _ (RqRead _ len) => (1 <=? len)%nat | _ => true end.
+Definition step_nonzero (idx : index) (nullid : id) (store : store_t) (s : sstate) (l : label) : option sstate :=
+  if label_nonzero l then step idx nullid store s l else None.
